@@ -142,6 +142,17 @@ chk("C08", "model_checking",
     "raw strings masked as the only literals with line breaks; marker lines of a region may count either way; four individually listed known findings (CR-only and census details)",
     "exhaustive enumeration of terminator assignments (3^L) with differential oracle against the LF-canonical run", "3/C08")
 
+chk("C10", "model_checking",
+    "Exhaustive delivery-mode product on the real binary: for every (input, profile) - language skeletons of all nine languages, "
+    "declaration and preprocessor units; defaults, a profile with include/import/using sorting and alignment, four shipped styles - all 13 "
+    "delivery modes (stdin+--assume, stdin+-l, -f, -f -o, -f X -o X, FILE, --prefix, --suffix, -F list, -F -, --replace, --replace "
+    "--no-backup, --no-backup) x {-l, language from the extension} x ALL subsets of the observer options {-p, -L A, -s, -q, --dump-steps, "
+    "--debug-csv-format} the mode accepts, plus one-at-a-time environment deviations (cwd elsewhere with absolute paths, five LC_ALL "
+    "values, HOME and UNCRUSTIFY_CONFIG decoys, TZ, COLUMNS, ASLR off via setarch -R, repeated run). Oracle: formatted bytes identical to "
+    "the reference run `-f FILE -l LANG -c CFG -q`; set of files created exactly as the mode documents; input untouched unless in place.",
+    "uninitialised reads that do not change the output under ASLR on/off are invisible; quick restricts observer subsets to sizes 0, 1, all for 9 of the 13 modes",
+    "exhaustive mode x observer-subset x environment-deviation enumeration with reference-run byte comparison", "3/C10")
+
 
 def main():
     commits = subprocess.run(["git", "-C", "/repo", "log", "--format=%h %s"], stdout=subprocess.PIPE, text=True).stdout.splitlines()
